@@ -1,8 +1,88 @@
+(* C12 — queued RDM requests complete exactly once, in order, one at a time.
+   Only theorem statements; proofs are in ProofsT/B/C.v and Proofs.v.
+
+   A history is a list of top-level operations (Model.op): Submit cb (cb = the operations the
+   request's completion callback performs, recursively), Disc full cb, Pause, Resume, Deliver reply
+   (the underlying controller answers later), DeliverDisc; together with the script of the mock
+   underlying controller (per SendRDMRequest call: answer synchronously with a given reply, or later;
+   per discovery run: finish synchronously or later), the queue limit and the controller class.
+   `reachable max discov ms ds s ag` holds for every configuration (state s, call-stack agenda ag)
+   that any such history can be in at any instant, inside re-entrant callbacks included.
+   `run_history` runs a whole history and then destroys the controller. *)
 From OlaBase Require Import Bytes.
-From C12 Require Import Gen Model Proofs.
+From Coq Require Import Sorted.
+From C12 Require Import Gen Model ProofsT ProofsB ProofsC Proofs.
 Local Open Scope N_scope.
+
+(* the constants the model and the statements below use are those of the headers *)
 Theorem c12_consts :
   (RDM_COMPLETED_OK, RDM_FAILED_TO_SEND, RDM_INVALID_RESPONSE, RDM_ACK, ACK_OVERFLOW, MAX_OVERFLOW_SIZE,
    GET_COMMAND_RESPONSE, SET_COMMAND_RESPONSE) = (0, 2, 4, 0, 3, 4096, 33, 49).
 Proof. reflexivity. Qed.
 Print Assumptions c12_consts.
+
+(* Every history, whatever the callbacks and the underlying controller do, runs to quiescence after
+   every operation: the model never returns None (= OutOfFuel); every single step strictly decreases
+   the measure used as fuel. *)
+Theorem c12_total :
+  (forall max discov ms ds h, run_history max discov ms ds h <> None) /\
+  (forall s o, exec_op s o <> None) /\
+  (forall s f ag s' ag', step s f ag = (s', ag') -> (measure s' ag' < measure s (f :: ag))%nat).
+Proof.
+  split; [exact run_history_total|]. split; [exact exec_op_total|exact step_decreases].
+Qed.
+Print Assumptions c12_total.
+
+(* Exactly once, in order (partial: the clause "with its own reply" is not part of this theorem).
+   After any history followed by destruction: every request ever submitted (ids 0 .. h_next-1, in
+   submission order) has exactly one completion and nothing else was completed; the completions of
+   the requests that were queued (everything except queue-full rejections) occur in strictly
+   increasing id order, i.e. submission order; every completion that is not an answer delivered from
+   the underlying controller (queue-full rejection, destruction) carries RDM_FAILED_TO_SEND and no
+   response; nothing is left in the queue.  And at every instant of every history no request has
+   completed twice and the queued requests completed so far did so in submission order. *)
+Theorem c12_once_in_order_partial :
+  (forall max discov ms ds h f,
+     run_history max discov ms ds h = Some f ->
+     (forall i, count_id i (g_done f) = if i <? h_next f then 1%nat else O) /\
+     StronglySorted N.lt (accepted_ids (g_done f)) /\
+     Forall (fun c => c_kind c = K_ANSWERED \/ c_reply c = mkReply RDM_FAILED_TO_SEND None 0) (g_done f) /\
+     s_queue f = []) /\
+  (forall max discov ms ds s ag,
+     reachable max discov ms ds s ag ->
+     (forall i, (count_id i (g_done s) <= 1)%nat) /\ StronglySorted N.lt (accepted_ids (g_done s))).
+Proof.
+  split.
+  - intros max discov ms ds h f H. exact (history_final _ _ _ _ _ _ H).
+  - intros max discov ms ds s ag H. exact (reach_once _ _ _ _ _ _ H).
+Qed.
+Print Assumptions c12_once_in_order_partial.
+
+(* Nothing is sent while paused: at every instant of every history the user-level paused flag (set
+   by the Pause operation, cleared by the Resume operation just before Resume() is called) is the
+   negation of m_active, and the number of calls (SendRDMRequest / RunFull/IncrementalDiscovery) that
+   reached the underlying controller while it was set is 0. *)
+Theorem c12_paused : forall max discov ms ds s ag,
+  reachable max discov ms ds s ag -> h_paused s = negb (s_active s) /\ g_psends s = 0.
+Proof. exact reach_paused. Qed.
+Print Assumptions c12_paused.
+
+(* Non-vacuity: a history with a re-entrant submission, an ACK_OVERFLOW chain whose first part is
+   answered synchronously inside a completion callback, pause/resume around a request in flight,
+   discovery, a queue-full rejection and destruction with requests queued.  Requests 0,1,2 are answered
+   in order (1 with the concatenated, tagged overflow data), 5 is rejected, 3 and 4 are failed by the
+   destructor; one call outstanding at most, none sent while paused. *)
+Example c12_example :
+  let ack := mkReply 0 (Some (mkResp 0 1 33 0 [7])) 1 in
+  let ovf := mkReply 0 (Some (mkResp 3 1 33 0 [5])) 1 in
+  match run_history 2 true [Later; Sync ovf; Later; Later] [false]
+          [Submit [Submit []]; Pause; Resume; Deliver ack; Deliver ack; Submit []; Submit [];
+           Disc true []; Deliver ack; DeliverDisc; Submit []; Submit []] with
+  | Some f => map (fun c => (c_id c, c_kind c,
+                             match r_resp (c_reply c) with Some r => rs_data r | None => [] end))
+                  (g_done f) =
+              [(0, 0, [0; 7]); (1, 0, [1; 5; 1; 7]); (2, 0, [2; 7]); (5, 1, []); (3, 2, []); (4, 2, [])]
+              /\ g_conc f = 1 /\ g_psends f = 0
+  | None => False
+  end.
+Proof. vm_compute. repeat split. Qed.
